@@ -95,6 +95,12 @@ pub fn run(r: &mut Rng, _n: u64, x: &mut Exec, sink: &mut Sink) {
             for x in [low | !m, low | (1u64 << w), low, v | !m, v.wrapping_sub(1u64 << w)] { vals.push(x); }
         }
     }
+    // every value the reference gives to ANY name (also the names the crate does not export)
+    vals.extend(crate::abiref_vals::ABIREF_VALUES.iter().copied());
+    // thorough tier: every single-bit neighbour of every exported constant
+    if std::env::var("VERIF_TIER").map(|t| t == "thorough").unwrap_or(false) {
+        for (_, _, v) in ABI_CONSTS.iter() { for b in 0..64 { vals.push(v ^ (1u64 << b)); } }
+    }
     for _ in 0..500 { vals.push(r.edge64()); }
     vals.sort(); vals.dedup();
     for v in vals {
